@@ -114,7 +114,14 @@ def run(tier):
     open(c, "w").write('SPECIFICATION Spec\nCONSTANTS\n  MaxSteps = %d\n  MaxLen = 40\n  Start = "<Def>"\nINVARIANT Emit\nCHECK_DEADLOCK FALSE\n' % steps)
     gen = run_tlc("Grammar", c, "c01", workers=8 if tier == "quick" else 14, timeout=3000)
     nA = 0
-    for k, case in enumerate(sorted(read_ndjson(gen.cases_path), key=lambda c_: json.dumps(c_["toks"]))):
+    gcases = sorted(read_ndjson(gen.cases_path), key=lambda c_: json.dumps(c_["toks"]))
+    ngram = len(gcases)
+    if len(gcases) > 20000:
+        # thorough tier: every derivation of up to 7 tokens, a seeded sample of the longer ones (two renderings each)
+        short = [c_ for c_ in gcases if len(c_["toks"]) <= 7]
+        long_ = [c_ for c_ in gcases if len(c_["toks"]) > 7]
+        gcases = short + rnd.sample(long_, max(0, min(len(long_), 20000 - len(short))))
+    for k, case in enumerate(gcases):
         for var in range(2):
             inputs.append(("grammar", render_tokens(case["toks"], k * 7 + var + vlib.seed()).encode()))
             nA += 1
@@ -122,7 +129,7 @@ def run(tier):
     sim = run_tlc("Grammar", c, "c01", workers=4, simulate=600 if tier == "quick" else 4000, depth=70, timeout=600, cases_suffix="-sim")
     simcases = sorted(read_ndjson(sim.cases_path), key=lambda c_: json.dumps(c_["toks"]))
     rnd.shuffle(simcases)
-    for k, case in enumerate(simcases[:2000 if tier == "quick" else 12000]):
+    for k, case in enumerate(simcases[:2000 if tier == "quick" else 8000]):
         inputs.append(("grammar-deep", render_tokens(case["toks"], k + 13 * vlib.seed()).encode()))
     # ---- A2: every special callee name x 0..3 arguments x three ways of writing the instantiation (the analysis passes key on
     #          Circomlib names and index into the argument list)
@@ -186,7 +193,7 @@ def run(tier):
     for case in read_ndjson(bgen.cases_path):
         inputs.append(("bytes", b"".join(HOSTILE[s] for s in case["s"])))
     # ---- D: mutations
-    nD = 2000 if tier == "quick" else 20000
+    nD = 2000 if tier == "quick" else 15000
     small = [t for t in corpus_texts if len(t) < 3000]
     for _ in range(nD):
         if rnd.random() < 0.15:
@@ -262,7 +269,7 @@ def run(tier):
         origins[o.split(":")[0]] = origins.get(o.split(":")[0], 0) + 1
     distinct = len(set(d for o, d in inputs))
     cov = {"evaluations": len(inputs), "distinct_nontrivial": distinct,
-           "rule": "inputs by origin %s; grammar = every leftmost derivation of Grammar.tla with <= %d expansion steps rendered with stress "
+           "rule": "inputs by origin %s; grammar = leftmost derivations of Grammar.tla with <= %d expansion steps (" + ("all %d" % ngram if ngram == len(gcases) else "%d of %d: all of up to 7 tokens, the longer ones sampled" % (len(gcases), ngram)) + "), two renderings each, with stress "
                    "literals/operators/strings; grammar-deep = random derivations (TLC simulation); bytes = every string of length <= %d "
                    "over the 12-symbol hostile alphabet; mutation = seeded token/byte mutations and splices of the corpora; options "
                    "rotate over the 36 combinations of 3 curves x 3 levels x verbose x sarif; non-trivial = distinct inputs (byte-wise)" %
